@@ -211,12 +211,12 @@ class Resolver:
                 m = self.method(mod.relpath, owner, f.attr)
                 if m is not None:
                     out.append(m)
-                    if polymorphic:
-                        for r, c in self.subclasses(mod.relpath, owner):
-                            for st in c.body:
-                                if isinstance(st, ast.FunctionDef) and st.name == f.attr:
-                                    out.append(st)
-                else:
+                if polymorphic:
+                    for r, c in self.subclasses(mod.relpath, owner):
+                        for st in c.body:
+                            if isinstance(st, ast.FunctionDef) and st.name == f.attr and st not in out:
+                                out.append(st)
+                if not out:
                     # class attribute alias: _move_item = staticmethod(func)
                     v = self.class_attr(mod.relpath, owner, f.attr)
                     if isinstance(v, ast.Call) and call_name(v) in ("staticmethod", "classmethod") and v.args:
@@ -268,7 +268,7 @@ class Resolver:
         return []
 
     # -- call sites of a function --------------------------------------------------
-    def callers(self, func, scope=None):
+    def callers(self, func, scope=None, polymorphic=False):
         """[(caller FunctionDef, Call)] for every call in `scope` modules that
         resolves to `func`."""
         out = []
@@ -278,7 +278,7 @@ class Resolver:
                 for st in f.body:
                     for n in walk_local(st):
                         if isinstance(n, ast.Call) and dotted(n.func) and dotted(n.func).split(".")[-1] == func.name:
-                            if any(t is func for t in self.resolve_call(n)):
+                            if any(t is func for t in self.resolve_call(n, polymorphic=polymorphic)):
                                 out.append((f, n))
         return out
 
